@@ -3,13 +3,17 @@
     median as an interpolation, BenchMathNormal: the mean interval,
     BenchMathUntied: the untied exact path of the U-test, structurally).
     Models: Model/BenchMath.v (benchmath), Model/MoreMathU.v (go-moremath U-test,
-    as it is), specifications: Model/BenchMathSpec.v. *)
+    as it is), Model/BenchMathCap.v (AssumeNothing.Compare with the repair
+    hooks/fix_c13_cap_p_at_one.diff), specifications: Model/BenchMathSpec.v,
+    Model/BenchMathJudge.v (tolerance judges of the evaluator, no theorems). *)
 From Coq Require Import Sorting.Permutation.
 From Perf Require Import Base.Bytes Base.B64 Base.B64Order Base.FmtPct
      Model.StatsF Model.MoreMathU Model.BenchMath Model.BenchMathSpec
      Proofs.BenchMath Proofs.BenchMathRender Proofs.BenchMathCI Proofs.BenchMathMono
      Proofs.BenchMathPerm Proofs.BenchMathSummary Proofs.BenchMathScale Proofs.B64Flocq
      Proofs.BenchMathInterp Proofs.BenchMathNormal Proofs.BenchMathUntied.
+From Perf Require Import Model.BenchMathCap.
+From Perf Require Proofs.BenchMathCap.
 From Perf Require Base.FmtFixed.
 From Perf Require Proofs.UDistUntied Proofs.BenchMathUntiedC11.
 From Flocq Require Core BinarySingleNaN.
@@ -613,3 +617,40 @@ Proof.
   cbn zeta. cbn [map app]. split; [repeat constructor; discriminate|]. split; [repeat constructor|].
   vm_compute. repeat split; try reflexivity; discriminate.
 Qed.
+
+(** REPAIR hooks/fix_c13_cap_p_at_one.diff (P = math.Min(res.P, 1) in
+    AssumeNothing.Compare).  go-moremath's untied exact path returns 1 + 2^-52 for
+    an exact p of 1 ({2,3,5} vs {1,4,6}), so unrepaired benchmath reports a p-value
+    outside [0,1].  With the repair the reported p is in [0,1] for EVERY float >= 0
+    the U-test returns, on every path: the upper-end oracle hypothesis of
+    C13_p_in_unit_interval_model is no longer needed for this assumption.  (The
+    theorems above that quantify over the test functions [uf], [wf] - threshold and
+    sizes carried, '~' iff P > Alpha, reordering invariance - hold for the repaired
+    function as instances: it is [compare] over the capped U-test.) *)
+Theorem C13_repaired_compare_p_in_unit : forall uf wf s1 s2 c,
+  compare_capped uf wf ANothing s1 s2 = Some c ->
+  (forall p, uf (s_values s1) (s_values s2) = TOk p -> b64_le f_zero p = true) ->
+  in01 (c_p c).
+Proof. exact Proofs.BenchMathCap.compare_capped_nothing_in01. Qed.
+Print Assumptions C13_repaired_compare_p_in_unit.
+
+(** the repair touches the assume-nothing comparison only *)
+Theorem C13_repaired_compare_other_unchanged : forall uf wf a s1 s2,
+  a <> ANothing -> compare_capped uf wf a s1 s2 = compare uf wf a s1 s2.
+Proof. exact Proofs.BenchMathCap.compare_capped_other. Qed.
+Print Assumptions C13_repaired_compare_other_unchanged.
+
+(** the audit's witness: the float go-moremath returns is above 1, the repaired
+    comparison reports exactly 1 *)
+Example C13_example_cap_witness :
+  min_one (b64_of_bits 0x3FF0000000000001) = b64_one
+  /\ b64_le (b64_of_bits 0x3FF0000000000001) b64_one = false.
+Proof. exact Proofs.BenchMathCap.min_one_witness. Qed.
+
+(** non-vacuity of C13_repaired_compare_p_in_unit: a U-test result above 1 *)
+Example C13_example_repaired_compare :
+  let uf := fun _ _ : list b64 => TOk (b64_of_bits 0x3FF8000000000000) in     (* 1.5 *)
+  let t := mkThr (b64_of_bits 0x3FA999999999999A) in
+  exists c, compare_capped uf uf ANothing (new_sample [fl 2] t) (new_sample [fl 1; fl 1; fl 1] t) = Some c
+            /\ c_p c = b64_one.
+Proof. eexists. split; vm_compute; reflexivity. Qed.
